@@ -307,9 +307,12 @@ func (ch *serverChannel) SendEnd(ctx async.Context) status.Status {
 	}
 	bytes := msg.Unwrap().Raw()
 
-	// Send message
-	s.sendEnd = true
-	return s.ch.Send(ctx, bytes)
+	// Send message, the end is sent only when the message is sent
+	st := s.ch.Send(ctx, bytes)
+	if st.OK() {
+		s.sendEnd = true
+	}
+	return st
 }
 
 // SendResponse sends a response and closes the channel.
